@@ -25,7 +25,7 @@ CHECKS = {
          "Level A: the voting engine on every weight matrix of shape <=3x3 over a grid straddling the threshold (exhaustive) and on random matrices up to 8x8 with shuffled arrival order; the result must be one-to-one over reported pairs, never below the gate, and its total must equal the DP optimum with 'unmatched = threshold'.",
          "Level A totals compared within rows*(2e-6 + 4e-7*max|w|). Level B: Sort / BatchSort histories; before every call the weights are recomputed in f64 from the observable state (posterior boxes, raw Kalman state via the guarded accessor) and the call's continuations must be gated pairs of live tracks with optimal total; calls with a decision within 1e-4 of a threshold are band.", "3/C02"),
  "C05": ("exploration", "differential property testing under forced worker schedules: 1 shard/free schedule vs k shards/planned interleavings of the Distances commands",
-         "Tie-free generated histories x shard count 1..8 x a plan per predict call that totally orders the Distances commands of all shard workers (gates on the command begin/end schedule points) plus delays; records must equal the 1-shard reference including ids (simple trackers) or up to renaming (batch trackers); wasted/idle sets equal.",
+         "Tie-free generated histories x shard count 1..8 x a plan per predict call that totally orders the Distances commands of all shard workers (gates on the command begin/end schedule points) plus delays; records must equal the 1-shard reference including ids (simple trackers) or up to renaming (batch trackers); wasted/idle sets equal. Sub-check voting-order: weight tables whose best assignment is unique by 2e-4 .. 5e-2 reach the Hungarian voting engine in two arrival orders - same winners, equal to the unique optimum.",
          "Hook-granularity schedule control (command begin/end), bounded gate waits; comparison cut at calls with a decision margin below 1e-4 (f64 shadow).", "3/C05"),
  "C06": ("exploration", "differential property testing under forced dispatch/voting orders: batch tracker vs simple tracker per scene; result-shape invariants; watchdog for completion",
          "Generated batch sequences over 1..5 scenes, 1..4 distance and 1..3 voting workers, caller or drainer-thread retrieval, plans ordering scene dispatch and voting jobs, delays, two shutdown modes. Per scene the batch tracker's records must equal the simple tracker's (bit-equal up to ids); each batch delivers exactly one result per scene with records echoing the detections in order and fresh distinct ids; every case must complete.",
